@@ -7,7 +7,13 @@
 // (n = 0 is T's zero value, nil for nillable types), dec is its inverse.  A variadic
 // parameter is reported as the slice the mock saw: null (nil slice) or a token list.
 //
-// stdin : JSON [{"mock":"p0.MoqI0","ops":[{"op":"set","m":"B","beh":"const","res":[1,0]},
+// A function installed by "set" may carry "nested" operations (calls / call / resetm / resetall): it
+// performs them on the mock while it runs (recovering their panics) and reports their outcomes in
+// the "inv" list of the running top-level call, in order, next to the invocations.  Every top-level
+// operation runs under a watchdog; one that never returns is reported as {"k":"deadlock"} and the
+// rest of that history as {"k":"skipped"}.  At most FUEL activations are nested ("outoffuel").
+//
+// stdin : JSON [{"mock":"p0.MoqI0","ops":[{"op":"set","m":"B","beh":"const","res":[1,0],"nested":[{"op":"calls","m":"B"}]},
 //               {"op":"call","m":"B","fixed":[1,2],"var":"none|elems|spread","elems":[..],"nilslice":bool},
 //               {"op":"calls","m":"B"},{"op":"resetm","m":"B"},{"op":"resetall"}]}]
 // stdout: JSON [[{"k":"unit"},{"k":"ret","res":[..],"inv":[{"m":"B","args":[..]}]},{"k":"panic","msg":".."},
@@ -22,6 +28,7 @@ import (
 	"reflect"
 	"strconv"
 	"strings"
+	"time"
 )
 
 var registry = map[string]func() any{}
@@ -217,14 +224,19 @@ type Op struct {
 	Var      string `json:"var"`
 	Elems    []int  `json:"elems"`
 	NilSlice bool   `json:"nilslice"`
+	Nested   []Op   `json:"nested"` // "set": operations the installed function performs on the mock while running
+	First    bool   `json:"first"`  // "set": ... but only when <M>Calls() read by the function holds just the running call
 }
 type Job struct {
 	Mock string `json:"mock"`
 	Ops  []Op   `json:"ops"`
 }
+// one thing seen while a call runs: an invocation of a user function (M, Args) or the outcome of a
+// nested operation performed by a running user function (Nested)
 type Inv struct {
-	M    string `json:"m"`
-	Args []any  `json:"args"`
+	M      string `json:"m,omitempty"`
+	Args   []any  `json:"args,omitempty"`
+	Nested *Out   `json:"nested,omitempty"`
 }
 type Fld struct {
 	F string `json:"f"`
@@ -240,14 +252,58 @@ type Out struct {
 
 var invoked []Inv
 
-func runOp(mock reflect.Value, op Op) (out Out) {
+// FUEL mirrors Harness/C04.v: at most FUEL activations nested in each other; a nested call that
+// would exceed it is not made, the whole top-level call is reported as "outoffuel".
+const FUEL = 3
+
+type outOfFuel struct{}
+
+var deadlocks int
+
+// depth of the activation whose generated method is being entered (read by the user function it invokes)
+var actDepth int
+
+// runTop runs one top-level operation under a watchdog: a generated method that never returns
+// (a lock still held while the user function re-enters the mock) is reported as "deadlock".
+func runTop(mock reflect.Value, op Op) Out {
 	invoked = nil
+	done := make(chan Out, 1)
+	go func() {
+		o := runOp(mock, op, 1)
+		if o.K == "ret" || o.K == "panicuser" || o.K == "outoffuel" || o.K == "panic" {
+			o.Inv = invoked
+		}
+		done <- o
+	}()
+	wait := 2 * time.Second
+	if ms, err := strconv.Atoi(os.Getenv("DRV_WATCHDOG_MS")); err == nil && ms > 0 {
+		wait = time.Duration(ms) * time.Millisecond // used while shrinking a history that already deadlocked
+	}
+	if deadlocks >= 3 && wait > 150*time.Millisecond {
+		wait = 150 * time.Millisecond
+	}
+	select {
+	case o := <-done:
+		return o
+	case <-time.After(wait):
+		deadlocks++
+		return Out{K: "deadlock"}
+	}
+}
+
+func runOp(mock reflect.Value, op Op, depth int) (out Out) {
 	defer func() {
 		if r := recover(); r != nil {
-			if _, ok := r.(userPanic); ok {
-				out = Out{K: "panicuser", Inv: invoked}
-			} else {
-				out = Out{K: "panic", Msg: fmt.Sprint(r), Inv: invoked}
+			switch r.(type) {
+			case userPanic:
+				out = Out{K: "panicuser"}
+			case outOfFuel:
+				if depth > 1 {
+					panic(r) // unwinds every running user function up to the top-level call
+				}
+				out = Out{K: "outoffuel"}
+			default:
+				out = Out{K: "panic", Msg: fmt.Sprint(r)}
 			}
 		}
 	}()
@@ -262,7 +318,7 @@ func runOp(mock reflect.Value, op Op) (out Out) {
 		case "nil":
 			f.Set(reflect.Zero(ft))
 		default:
-			name, beh, res := op.M, op.Beh, op.Res
+			name, beh, res, nested, first := op.M, op.Beh, op.Res, op.Nested, op.First
 			f.Set(reflect.MakeFunc(ft, func(args []reflect.Value) []reflect.Value {
 				rec := Inv{M: name, Args: []any{}}
 				for i, a := range args {
@@ -273,6 +329,22 @@ func runOp(mock reflect.Value, op Op) (out Out) {
 					}
 				}
 				invoked = append(invoked, rec)
+				my := actDepth
+				todo := nested
+				if first {
+					x := runOp(mock, Op{Op: "calls", M: name}, my+1)
+					invoked = append(invoked, Inv{Nested: &x})
+					if len(x.L) != 1 {
+						todo = nil
+					}
+				}
+				for _, nop := range todo {
+					if nop.Op == "call" && my+1 > FUEL {
+						panic(outOfFuel{})
+					}
+					x := runOp(mock, nop, my+1)
+					invoked = append(invoked, Inv{Nested: &x})
+				}
 				if beh == "panic" {
 					panic(userPanic{})
 				}
@@ -289,6 +361,9 @@ func runOp(mock reflect.Value, op Op) (out Out) {
 		if !mv.IsValid() {
 			return Out{K: "nomethod"}
 		}
+		prev := actDepth
+		actDepth = depth
+		defer func() { actDepth = prev }()
 		mt := mv.Type()
 		nfix := mt.NumIn()
 		if mt.IsVariadic() {
@@ -328,7 +403,7 @@ func runOp(mock reflect.Value, op Op) (out Out) {
 			}
 			rets = mv.CallSlice(append(args, s))
 		}
-		o := Out{K: "ret", Res: []any{}, Inv: invoked}
+		o := Out{K: "ret", Res: []any{}}
 		for _, r := range rets {
 			o.Res = append(o.Res, dec(r))
 		}
@@ -389,8 +464,15 @@ func main() {
 		}
 		mock := reflect.ValueOf(mk())
 		outs := make([]Out, 0, len(j.Ops))
+		dead := false
 		for _, op := range j.Ops {
-			outs = append(outs, runOp(mock, op))
+			if dead {
+				outs = append(outs, Out{K: "skipped"}) // the mock is stuck behind the leaked goroutine
+				continue
+			}
+			o := runTop(mock, op)
+			dead = o.K == "deadlock"
+			outs = append(outs, o)
 		}
 		all = append(all, outs)
 	}
